@@ -23,3 +23,4 @@ REPLAYERS = {}
 CHECKS["X10"] = checks_extra.check_refine
 CHECKS["X11"] = checks_extra.check_refine
 CHECKS["X03"] = checks_extra.check_zwindow
+CHECKS["X04"] = checks_extra.check_findall
